@@ -256,6 +256,45 @@ func c14RuntimeDerived(c *rt.Ctx, sub int, k int) {
 		rev[len(order)-1-i] = x
 	}
 	run(1, rev)
+	// the encoder's fallback map: every derived type encoded for the first time in the drawn order,
+	// then again in reverse (a later insertion must not disturb what is already there), through
+	// the value itself and inside an interface
+	enc := func(pass int, idx []int) {
+		for pos, di := range idx {
+			d := ds[di]
+			if d.name == "**T" {
+				continue // pointer chains of depth 2 are KF-C01-PTR2's business
+			}
+			n := k%1000 + pos + 10*pass
+			p := reflect.New(d.typ)
+			if err := stdjson.Unmarshal([]byte(d.doc(n)), p.Interface()); err != nil {
+				continue
+			}
+			want, _ := stdjson.Marshal(p.Elem().Interface())
+			for _, wrapped := range []bool{false, true} {
+				var x any = p.Elem().Interface()
+				w := string(want)
+				if wrapped {
+					x, w = []any{x}, "["+string(want)+"]"
+				}
+				var b []byte
+				var err error
+				pan, msg, _ := rt.Guard(func() { b, err = gojson.Marshal(x) })
+				c.Eval(1)
+				if pan || err != nil || string(b) != w {
+					var before []string
+					for _, j := range idx[:pos] {
+						before = append(before, ds[j].name)
+					}
+					c.Violate(rt.Violation{Monitor: "self-ident", Entry: "runtime-type", Kind: "encoded-by-foreign-program", Ctx: "derived:" + d.name,
+						Detail: fmt.Sprintf("run-time type %d: %s encoded (pass %d, in interface=%v) after %v gave %s err=%v panic=%v %s; want %s", k, d.name, pass, wrapped, before, b, err, pan, msg, w), Sub: sub})
+					return
+				}
+			}
+		}
+	}
+	enc(0, order)
+	enc(1, rev)
 	c.Obs("runtime_derived_type_ladders", 1)
 }
 
